@@ -224,6 +224,13 @@ def sweep_small(job: dict) -> dict:
                 _v(col, "reencode-hex", "hex_from_flag8", {"hex": h, "lsb": lsb}, f"{h}->{flags}->{back}")
             if hex_to_flag8(hex_from_flag8(exp, lsb=lsb), lsb=lsb) != exp:
                 _v(col, "roundtrip-value", "hex_from_flag8", {"flags": exp, "lsb": lsb}, "flags changed")
+            # a decoded value is the caller's own: what a caller does with it must not change later decodes of the same byte
+            if isinstance(flags, list) and flags:
+                flags[0] ^= 1
+                flags.append(9)
+                again = hex_to_flag8(h, lsb=lsb)
+                if again != exp:
+                    _v(col, "decode-depends-on-earlier-result", "hex_to_flag8", {"hex": h, "lsb": lsb}, f"after the caller edited an earlier result: {again} != {exp}")
     d = date(2000, 1, 1)
     while d.year < 2100:
         for dow in (0, 0b10100000):
